@@ -107,9 +107,9 @@ def isOpt (o : Opts) : String :=
 
 /-- request-direction verdict shared by fwd / e2e: `out` vs the model and the spec -/
 def judgeReq (wire : Bool) (o : Opts) (its : List (Bytes × Bytes)) (mOut : MD) (mDl : Option Int)
-    (out : MD) (dl : String) : Option String :=
+    (out : MD) (dl : String) (mOld : MD := []) : Option String :=
   if out.any (fun e => e.1 == timeoutKey) then some "VIOL grpc-timeout forwarded as metadata"
-  else if !wire && !(reqSpec false o its out) && reqSpec true o its out && sortMD out == sortMD mOut then
+  else if !wire && !(reqSpec false o its out) && sortMD out != sortMD mOut && sortMD out == sortMD mOld then
     some "VIOL D13 binary metadata already decoded by grpc-go was base64-decoded a second time on the gRPC proxy entry"
   else if !(reqSpec wire o its out) then some s!"VIOL target received metadata not licensed by the request allow-list model={showMD mOut}"
   else if sortMD out != sortMD mOut then some s!"DIFF model=out:{showMD mOut}"
@@ -191,8 +191,10 @@ def handle : Handler
             let r : Request := match e with
               | .grpcws => { lines := ps }
               | .ws => { hdr := seen, qmd := qmd }
-              | _ => { hdr := seen }
+              | _ => { hdr := seen }            -- proxy: `normalise := true`, the entry point as it is after fix D13
             let mOut := targetMD e o r
+            -- what the proxy entry did before the fix (only used to name the regression precisely)
+            let mOld := targetMD e o { r with normalise := false }
             -- proxy: grpc-go itself turns the client's grpc-timeout into the deadline of the incoming context;
             -- a timeout the allow-list renames onto grpc-timeout is applied on top (context.WithTimeout: the earlier wins)
             let mDl := match e with
@@ -203,7 +205,7 @@ def handle : Handler
                  | some a, none => some a
                  | none, b => b)
               | _ => targetDeadline e o r
-            match judgeReq e.wire o (items e r) mOut mDl out dl with
+            match judgeReq e.wire o (items e r) mOut mDl out dl mOld with
             | some v => v
             | none =>
               let (mh0, mt) := clientVisible e o streaming sc h t
